@@ -77,6 +77,7 @@ def worker(seed, tier, chunk, out_path):
             tkind = "geos_disk"
             span = 60.0
             res = 11140000.0 / max(th, tw)
+        edge_fill = "n/a"
         src_is_area = rng.random() < 0.3
         if src_is_area:
             sh, sw = rng.randrange(2, 8), rng.randrange(2, 8)
@@ -95,6 +96,10 @@ def worker(seed, tier, chunk, out_path):
                 slat[0, :] = np.nan
             elif edge_fill == "last_row":
                 slon[-1, :] = np.nan
+            if ci % 12 == 5:
+                # a granule without any usable navigation: every resampler returns nothing but fill
+                slon[:] = rng.choice([np.nan, 1e30, 200.0])
+                edge_fill = "no_valid_source"
             cy, cx = _ragged(rng, sh), _ragged(rng, sw)
             geo_dims = rng.choice([("y", "x"), ("rows", "cols")])
             src = SwathDefinition(xr.DataArray(da.from_array(slon, chunks=(cy, cx)), dims=geo_dims),
@@ -124,7 +129,7 @@ def worker(seed, tier, chunk, out_path):
             m = np.array([[rng.random() < 0.4 for _ in range(sw)] for _ in range(sh)]) if mask_kind == "some" else np.ones((sh, sw), bool)
         fill = float("nan") if np.issubdtype(dtype, np.floating) else None   # ints: dtype max (documented)
         rec = {"place": name, "chunk_size": chunk, "src_shape": (sh, sw), "tgt_shape": (th, tw), "src_is_area": src_is_area,
-               "radius": radius, "layout": layout, "dtype": np.dtype(dtype).name, "mask_kind": mask_kind, "data_chunks": dchunks,
+               "radius": radius, "layout": layout, "dtype": np.dtype(dtype).name, "mask_kind": mask_kind, "data_chunks": dchunks, "source_navigation": edge_fill,
                "slon": slon, "slat": slat, "arr": arr, "dims": dims, "geo_dims": geo_dims, "mask": m, "target_kind": tkind}
         tl, tla = kc.lonlats(tgt)
         rec["tlon"], rec["tlat"] = tl, tla
@@ -231,7 +236,7 @@ def _eq(a, b):
 
 def check_case(ctx, rec):
     inp = {k: rec[k] for k in ("place", "chunk_size", "src_shape", "tgt_shape", "src_is_area", "radius", "layout", "dtype",
-                               "mask_kind", "data_chunks", "target_kind")}
+                               "mask_kind", "data_chunks", "target_kind", "source_navigation")}
     if "ref_error" in rec:
         ctx.note("numpy reference raised: " + rec["ref_error"])
         return
@@ -305,7 +310,7 @@ def check_case(ctx, rec):
                     grid[r0:r0 + rc, c0:c0 + cc] = np.array(flat[pos:pos + rc * cc]).reshape(rc, cc)
                     pos += rc * cc
                 sel = np.flatnonzero(vii)
-                impl_ids = np.where(ia >= 0, sel[np.where(ia >= 0, ia, 0)], -1)
+                impl_ids = np.where(ia >= 0, sel[np.where(ia >= 0, ia, 0)], -1) if sel.size else np.where(ia >= 0, -2, -1)   # (no valid source: any index is wrong)
                 if not np.array_equal(grid, impl_ids):
                     ctx.disagree(which + ".model", inp, impl_ids.tolist(), grid.tolist())
     if "reuse" in rec:
@@ -338,6 +343,7 @@ def check_case(ctx, rec):
     ctx.count(f"chunk_size.{rec['chunk_size']}")
     ctx.count(f"layout.{rec['layout']}")
     ctx.count(f"mask.{rec['mask_kind']}")
+    ctx.count(f"source_navigation.{rec.get('source_navigation')}")
 
 
 def run(ctx):
